@@ -278,7 +278,7 @@ func (sw Sweeper) RetentionDurationMinusCutoff() time.Duration {
 	if sw.RetentionLoadCutoffDuration > 0 {
 		buffer := sw.RetentionLoadCutoffDuration
 		// Safeguard: never more than 75% of the retention duration
-		maxBuffer := retention * 3 / 4
+		maxBuffer := retention / 4 * 3 // divide first: retention * 3 overflows for very long retentions
 		if buffer > maxBuffer {
 			buffer = maxBuffer
 		}
